@@ -275,6 +275,24 @@ def _assigned_names(stmts: list[ast.stmt]) -> set[str]:
     return out
 
 
+LIST_MUTATORS = ("append", "extend", "insert", "pop", "remove", "clear", "sort", "reverse")
+PURE_CONSUMERS = {"len", "tuple", "list", "any", "all", "sorted", "enumerate", "reversed", "iter", "bool", "set", "frozenset", "sum", "max", "min", "zip", "isinstance", "repr", "str", "print"}
+
+
+def _mutated_names(stmts: list[ast.stmt]) -> set[str]:
+    """Local names whose list may be changed in place by the statements: x.append(..) and friends, x += .., x[i] = .., del x[i]."""
+    out: set[str] = set()
+    for s in stmts:
+        for n in ast.walk(s):
+            if isinstance(n, ast.Call) and isinstance(n.func, ast.Attribute) and isinstance(n.func.value, ast.Name) and n.func.attr in LIST_MUTATORS:
+                out.add(n.func.value.id)
+            elif isinstance(n, ast.AugAssign) and isinstance(n.target, ast.Name):
+                out.add(n.target.id)
+            elif isinstance(n, ast.Subscript) and isinstance(n.ctx, (ast.Store, ast.Del)) and isinstance(n.value, ast.Name):
+                out.add(n.value.id)
+    return out
+
+
 def _leaving_only_names(stmts: list[ast.stmt]) -> set[str]:
     """Names that the loop body assigns *only* in suites that end by leaving the loop (break / return / raise as last statement,
     no `continue` inside): their new value never reaches a further iteration nor the loop's normal completion."""
@@ -327,7 +345,7 @@ def _stored_attrs(stmts: list[ast.stmt]) -> set[str]:
 
 def _has_interesting(expr: ast.AST) -> bool:
     for n in ast.walk(expr):
-        if isinstance(n, (ast.Call, ast.IfExp, ast.Subscript, ast.Yield, ast.YieldFrom, ast.NamedExpr)):
+        if isinstance(n, (ast.Call, ast.IfExp, ast.Subscript, ast.Yield, ast.YieldFrom, ast.NamedExpr, ast.ListComp)):
             return True
     return False
 
@@ -469,6 +487,24 @@ class Enumerator:
 
     def s_Expr(self, s: ast.Expr, st: St):
         out = []
+        v = s.value
+        # L.extend(E for x in it [if c])  ==  for x in it: [if c:] L.append(E)     (a list display around the comprehension likewise;
+        # with a list comprehension nothing is appended when building it fails: the loop form over-approximates that exceptional state)
+        if isinstance(v, ast.Call) and isinstance(v.func, ast.Attribute) and v.func.attr == "extend" and len(v.args) == 1 and not v.keywords and isinstance(v.args[0], (ast.GeneratorExp, ast.ListComp)) and isinstance(v.func.value, (ast.Name, ast.Attribute)):
+            comp = v.args[0]
+            if not any(g.is_async for g in comp.generators):
+                body: list[ast.stmt] = [ast.Expr(ast.Call(ast.Attribute(v.func.value, "append", ast.Load()), [comp.elt], []))]
+                for g in reversed(comp.generators):
+                    for c in reversed(g.ifs):
+                        body = [ast.If(c, body, [])]
+                    body = [ast.For(g.target, g.iter, body, [], None)]
+                for n in body:
+                    ast.copy_location(n, s)
+                    ast.fix_missing_locations(n)
+                    for sub in ast.walk(n):
+                        if not hasattr(sub, "lineno"):
+                            ast.copy_location(sub, s)
+                return self.exec_block(body, st)
         for st2, _t, exc in self.ev(s.value, st):
             out.append((st2, ("raise", exc) if exc else NORMAL))
         return out
@@ -552,6 +588,18 @@ class Enumerator:
         val = ast.BinOp(load, s.op, s.value)
         ast.copy_location(val, s)
         out = []
+        if isinstance(s.target, ast.Name) and isinstance(s.op, ast.Add) and isinstance(st.env.get(s.target.id), ast.List):
+            # x += more, x known as a list display: the new contents are the display followed by `more`
+            known = st.env[s.target.id]
+            for st2, t, exc in self.ev(s.value, st):
+                if exc:
+                    out.append((st2, ("raise", exc)))
+                    continue
+                if isinstance(t, ast.Name) and isinstance(st2.env.get(t.id), (ast.List, ast.Tuple)):
+                    t = st2.env[t.id]
+                new = ast.List(list(known.elts) + list(t.elts), ast.Load()) if isinstance(t, (ast.List, ast.Tuple)) and not any(isinstance(x, ast.Starred) for x in t.elts) else ast.BinOp(known, ast.Add(), t)
+                out.extend((st3, ("raise", e3) if e3 else NORMAL) for st3, e3 in self.bind(s.target, new, st2, s, aug=True))
+            return out
         for st2, t, exc in self.ev(val, st):
             if exc:
                 out.append((st2, ("raise", exc)))
@@ -599,6 +647,12 @@ class Enumerator:
         return out
 
     # ---- loops
+    def _forget_displays(self, st: St, stmts: list[ast.stmt]) -> None:
+        """A local known as a list display that the statements may change in place (in some iteration) is no longer known."""
+        for n in _mutated_names(stmts):
+            if isinstance(st.env.get(n), (ast.List, ast.Tuple)):
+                st.env[n] = ast.Name(n, ast.Load())
+
     def _havoc(self, st: St, names: set[str], attrs: set[str], tag: str) -> None:
         for n in names:
             if n in st.env and isinstance(st.env[n], ast.FunctionDef):
@@ -644,6 +698,7 @@ class Enumerator:
             sa.evs.append(L)
             # names assigned only on the way out of the loop keep their value from before the loop when it completes normally
             self._havoc(sa, names - _leaving_only_names(node.body), attrs, f"after{tag}")
+            self._forget_displays(sa, node.body)
             exits = [(sa, False)] if exit_test is None else self.branch(exit_test, sa)
             for se, truth in exits:
                 if isinstance(truth, tuple):
@@ -755,15 +810,15 @@ class Enumerator:
         out = []
         tag = f"L{s.lineno}"
         if not s.orelse and st.depth < self.cfg.max_inline_depth:
-            def loop_level_jump(stmts):
+            def loop_level_jump(stmts, kinds=(ast.Break, ast.Continue)):
                 for x in stmts:
-                    if isinstance(x, (ast.Break, ast.Continue)):
+                    if isinstance(x, kinds):
                         return True
                     if isinstance(x, (ast.For, ast.While, ast.FunctionDef, ast.ClassDef)):
                         continue
                     for fld in ("body", "orelse", "finalbody", "handlers"):
                         sub = getattr(x, fld, None)
-                        if isinstance(sub, list) and loop_level_jump([h for h in sub if isinstance(h, ast.stmt)] + [y for h in sub if isinstance(h, ast.ExceptHandler) for y in h.body]):
+                        if isinstance(sub, list) and loop_level_jump([h for h in sub if isinstance(h, ast.stmt)] + [y for h in sub if isinstance(h, ast.ExceptHandler) for y in h.body], kinds):
                             return True
                 return False
 
@@ -809,14 +864,24 @@ class Enumerator:
                     ast.fix_missing_locations(inner)
                     return self.exec_block([inner], st)
             g = self._generator_of(s.iter, st)
-            if g is not None and not loop_level_jump(s.body):
-                spliced = self._splice_generator(s, *g)
+            if g is not None and not loop_level_jump(s.body, (ast.Break,)):
+                s_ = s
+                if loop_level_jump(s.body):
+                    # `continue` in the consuming loop = on to the next yielded value = the end of the body at the yield point: the
+                    # body is wrapped in a loop over a one-element tuple (unrolled by the engine), in which `continue` ends it
+                    once = ast.For(ast.Name(f"$once{s.lineno}", ast.Store()), ast.Tuple([ast.Constant(None)], ast.Load()), s.body, [], None)
+                    s_ = ast.copy_location(ast.For(s.target, s.iter, [ast.copy_location(once, s)], [], None), s)
+                    ast.fix_missing_locations(s_)
+                spliced = self._splice_generator(s_, *g)
                 if spliced is not None:
                     return self.exec_block(spliced, st)
         for st1, it, exc in self.ev(s.iter, st):
             if exc:
                 out.append((st1, ("raise", exc)))
                 continue
+            # a local / parameter bound to a list display that nothing has touched since reads as that display
+            if isinstance(it, ast.Name) and isinstance(st1.env.get(it.id), (ast.List, ast.Tuple)):
+                it = st1.env[it.id]  # kept current by the engine: in-place changes update or drop it (see _do_call / _forget_displays)
             # a literal tuple / list of a few elements: unroll (the loop is a spelling of consecutive statements)
             if isinstance(it, (ast.Tuple, ast.List)) and 0 < len(it.elts) <= 8 and not any(isinstance(x, ast.Starred) for x in it.elts):
                 states: list[tuple[St, tuple]] = [(st1, NORMAL)]
@@ -855,6 +920,7 @@ class Enumerator:
                     out.append((s3, ("raise", kind)))
             body_st = st1.fork()
             self._havoc(body_st, _assigned_names(s.body), _stored_attrs(s.body), tag)
+            self._forget_displays(body_st, s.body)
             elem = self.cfg.loop_elem(s, it, st1) or ast.Call(ast.Name("$elem", ast.Load()), [it], [])
             for st_b, e in self.bind(s.target, elem, body_st, s, quiet=True):
                 pass
@@ -874,6 +940,7 @@ class Enumerator:
         # body from a havocked state in which the test holds
         hv = st.fork()
         self._havoc(hv, names, attrs, tag)
+        self._forget_displays(hv, s.body)
         n0 = len(hv.evs)
         entered = [b for b, truth in self.branch(s.test, hv) if truth is True]
         for body_st in entered:
@@ -993,11 +1060,17 @@ class Enumerator:
         txt = render(t)
         return "self." in txt and any(isinstance(n, (ast.Subscript, ast.Call)) for n in ast.walk(t)) and self.cfg.is_shared_read(txt, st)
 
-    def _freeze(self, st: St, env: dict, k: str, t: ast.expr) -> None:
+    def _freeze(self, st: St, env: dict, k: str, t: ast.expr, tokens: set | None = None) -> None:
         """Local `k` keeps the value it read earlier although the expression it was read from may now yield another: from here on it
         is the opaque name k'.  What was known about the value itself goes with it (a value that cannot be None stays not-None)."""
         txt, new = render(t), f"{k}'"
-        env[k] = ast.Name(new, ast.Load())
+        if isinstance(t, (ast.List, ast.Tuple)) and not any(isinstance(x, ast.Starred) for x in t.elts):
+            # a display stays a display: each element that is an earlier read of shared state becomes its own snapshot k'[i]
+            # (of the elements, only those that read what was just stored, when the freeze is due to a store)
+            elts = [ast.Name(f"{new}[{i}]", ast.Load()) if not isinstance(x, (ast.Constant, ast.Name)) and "self." in render(x) and (tokens is None or any(tk in render(x) for tk in tokens)) else x for i, x in enumerate(t.elts)]
+            env[k] = type(t)(elts, ast.Load())
+        else:
+            env[k] = ast.Name(new, ast.Load())
         self.emit(st, "freeze", f"{new} = {txt}", None, name=new, of=txt)
         for atom in (f"{txt} is None",):
             if atom in st.val:
@@ -1041,8 +1114,10 @@ class Enumerator:
                     if isinstance(t, ast.Name):
                         continue
                     if text in render(t):
-                        self._freeze(st2, st2.env, k, t)
+                        self._freeze(st2, st2.env, k, t, {text})
                 self._kill_atoms(st2, text)
+                if isinstance(term, ast.Name) and isinstance(st2.env.get(term.id), ast.List):
+                    st2.env[term.id] = ast.Name(term.id, ast.Load())  # the list is now reachable through the attribute as well
                 if isinstance(term, (ast.Constant, ast.Name)) and not aug:
                     st2.env[text] = term  # only plain values flow through attributes (identity matters for anything computed)
                 else:
@@ -1106,13 +1181,18 @@ class Enumerator:
                     return out[e.id]
                 if e.id in module.imports and counts.get(e.id, 0) == 0:
                     return e
+                if counts.get(e.id, 0) == 1 and isinstance(module.consts.get(e.id), ast.Constant) and isinstance(module.consts[e.id].value, (str, bytes, int)):
+                    return e  # a named literal constant of the module: kept by name (the name is what rules read)
                 return None
             if isinstance(e, ast.Attribute):
                 v = pure(e.value, depth + 1)
                 return ast.Attribute(v, e.attr, ast.Load()) if v is not None and not isinstance(v, ast.Constant) else None
-            if isinstance(e, ast.Tuple) and 0 < len(e.elts) <= 8:
+            if isinstance(e, (ast.Tuple, ast.Set)) and 0 < len(e.elts) <= 8:
                 vals = [pure(x, depth + 1) for x in e.elts]
-                return ast.Tuple(vals, ast.Load()) if all(v is not None for v in vals) else None
+                return type(e)(vals, *([ast.Load()] if isinstance(e, ast.Tuple) else [])) if all(v is not None for v in vals) else None
+            if isinstance(e, ast.Call) and isinstance(e.func, ast.Name) and e.func.id in ("frozenset", "tuple") and counts.get(e.func.id, 0) == 0 and len(e.args) == 1 and not e.keywords:
+                v = pure(e.args[0], depth + 1)
+                return ast.Call(e.func, [v], []) if isinstance(v, (ast.Tuple, ast.Set)) else None
             if isinstance(e, ast.BinOp):
                 a, b = pure(e.left, depth + 1), pure(e.right, depth + 1)
                 return ast.BinOp(a, e.op, b) if a is not None and b is not None else None
@@ -1142,7 +1222,7 @@ class Enumerator:
             if tgt and counts.get(tgt) == 1:
                 v = pure(val)
                 # only aliases of something a rule may need to see through: attribute chains / calls on them, or byte / text literals
-                if v is not None and (any(isinstance(x, (ast.Attribute, ast.Call)) for x in ast.walk(v)) or (isinstance(v, ast.Constant) and isinstance(v.value, (str, bytes)) and len(v.value) <= 2)):
+                if v is not None and (any(isinstance(x, (ast.Attribute, ast.Call, ast.Set)) for x in ast.walk(v)) or (isinstance(v, ast.Constant) and isinstance(v.value, (str, bytes)) and len(v.value) <= 2)):
                     out[tgt] = v
         cache[module.name] = out
         return out
@@ -1163,11 +1243,24 @@ class Enumerator:
     def ev(self, e: ast.expr, st: St) -> list[tuple[St, ast.expr, str | None]]:
         """Evaluate to terms; forks on IfExp / inlined callee paths / raised kinds."""
         if not _has_interesting(e):
-            return [(st, self.cfg.canon_term(self.subst(e, st), st), None)]
+            t0 = self.subst(e, st)
+            if t0 is not e and any(isinstance(n, ast.Attribute) and isinstance(n.value, ast.Call) for n in ast.walk(t0)):
+                t0 = self._project(t0)  # a field read on a local that holds a constructor term
+            return [(st, self.cfg.canon_term(t0, st), None)]
         m = getattr(self, "e_" + type(e).__name__, None)
         res = m(e, st) if m is not None else self._e_generic(e, st)
-        if self.P.value_classes:
+        if self.P.value_classes or isinstance(e, ast.Attribute):
             res = [(s2, self._project(t) if x is None and isinstance(t, ast.AST) else t, x) for s2, t, x in res]
+        if isinstance(e, ast.BinOp) and isinstance(e.op, ast.Add):
+            # A + X[len(X):]  is  A  (the tail of X from its own length on is empty): the re-keyed name of the renamed directory itself
+            def emp(n):
+                return (
+                    isinstance(n, ast.Subscript) and isinstance(n.slice, ast.Slice) and n.slice.upper is None and n.slice.step is None
+                    and isinstance(n.slice.lower, ast.Call) and isinstance(n.slice.lower.func, ast.Name) and n.slice.lower.func.id == "len"
+                    and len(n.slice.lower.args) == 1 and render(n.slice.lower.args[0]) == render(n.value)
+                )
+
+            res = [(s2, (t.left if emp(t.right) else t.right if emp(t.left) else t) if x is None and isinstance(t, ast.BinOp) and isinstance(t.op, ast.Add) else t, x) for s2, t, x in res]
         if type(self.cfg).canon_term is not Cfg.canon_term:
             res = [(s2, self.cfg.canon_term(t, s2) if x is None and isinstance(t, ast.AST) else t, x) for s2, t, x in res]
         return res
@@ -1176,7 +1269,31 @@ class Enumerator:
         """Field reads on the constructor term of an immutable value class (NamedTuple with methods) yield the argument."""
         vc = self.P.value_classes
 
+        def dc(n):
+            # a field read on the constructor term of a plain dataclass whose field is never stored anywhere in the program
+            if isinstance(n, ast.Attribute) and isinstance(n.value, ast.Call) and isinstance(n.value.func, ast.Name) and n.value.func.id in self.P.classes:
+                flds = self._dc_fields(n.value.func.id)
+                if flds:
+                    names = [f for f, _ in flds]
+                    c = n.value
+                    if n.attr in names and not any(isinstance(a, ast.Starred) for a in c.args) and not any(k.arg is None for k in c.keywords):
+                        i = names.index(n.attr)
+                        if i < len(c.args):
+                            return c.args[i]
+                        for k in c.keywords:
+                            if k.arg == n.attr:
+                                return k.value
+                        if flds[i][1] is not None and isinstance(flds[i][1], ast.Constant):
+                            return flds[i][1]
+            return None
+
+        if not vc:
+            return rewrite(t, dc)
+
         def fn(n):
+            r = dc(n)
+            if r is not None:
+                return r
             if isinstance(n, ast.Attribute) and isinstance(n.value, ast.Call) and isinstance(n.value.func, ast.Name) and n.value.func.id in vc:
                 fields, c = vc[n.value.func.id], n.value
                 if n.attr in fields and not any(isinstance(a, ast.Starred) for a in c.args):
@@ -1189,6 +1306,20 @@ class Enumerator:
             return None
 
         return rewrite(t, fn)
+
+    def _dc_fields(self, cls: str):
+        cache = self.__dict__.setdefault("_dcf_cache", {})
+        if cls not in cache:
+            from .flow import _attr_store_sites
+            from .records import dataclass_init_fields
+
+            flds = dataclass_init_fields(self.P, cls)
+            if flds:
+                sites = _attr_store_sites(self.P)
+                if "*" in sites or any(sites.get(f) for f, _ in flds):
+                    flds = None  # some field of that name is assigned somewhere: not a value
+            cache[cls] = flds
+        return cache[cls]
 
     def _e_generic(self, e: ast.expr, st: St):
         """Evaluate child expressions left to right and rebuild the node."""
@@ -1244,7 +1375,55 @@ class Enumerator:
                     return res
         return [(st, t, None)]
 
-    e_ListComp = e_SetComp = e_DictComp = e_GeneratorExp = _e_comp
+    e_SetComp = e_DictComp = e_GeneratorExp = _e_comp
+
+    def _would_inline(self, call: ast.Call, st: St) -> bool:
+        if isinstance(call.func, ast.Name) and isinstance(st.env.get(call.func.id), ast.FunctionDef):
+            return True
+        try:
+            sub = self.subst(call, st)
+            saved = st.last_orig
+            st.last_orig = call
+            got = self.cfg.inline(sub, render(sub.func), None, st)
+            st.last_orig = saved
+            return bool(got)
+        except AnalysisError:
+            return False
+
+    def e_ListComp(self, e: ast.ListComp, st: St):
+        """A list comprehension whose element (or filter) calls something this analysis follows has effects: it is run as the loop it
+        abbreviates — `_lcN = []; for x in it: [if c:] _lcN.append(E)` — and evaluates to that list (kept by name: its provenance is
+        the `assign` and the appending loop on the path).  Other comprehensions stay opaque terms."""
+        inner = [n for part in [e.elt] + [c for g in e.generators for c in g.ifs] + [g.iter for g in e.generators[1:]] for n in ast.walk(part) if isinstance(n, ast.Call)]
+        it0 = self.subst(e.generators[0].iter, st)
+        if isinstance(it0, ast.Name) and isinstance(st.env.get(it0.id), (ast.List, ast.Tuple)):
+            it0 = st.env[it0.id]
+        # (a filter over a literal display selects among known elements; a plain map over one is left as the term it is)
+        over_display = len(e.generators) == 1 and bool(e.generators[0].ifs) and isinstance(it0, (ast.List, ast.Tuple)) and 0 < len(it0.elts) <= 8 and not any(isinstance(x, ast.Starred) for x in it0.elts)
+        if any(g.is_async for g in e.generators) or not (over_display or (st.depth < self.cfg.max_inline_depth and any(self._would_inline(c, st) for c in inner))):
+            return self._e_comp(e, st)
+        name = f"_lc{getattr(e, 'lineno', 0)}_{getattr(e, 'col_offset', 0)}"
+        body: list[ast.stmt] = [ast.Expr(ast.Call(ast.Attribute(ast.Name(name, ast.Load()), "append", ast.Load()), [e.elt], []))]
+        for g in reversed(e.generators):
+            for c in reversed(g.ifs):
+                body = [ast.If(c, body, [])]
+            body = [ast.For(g.target, g.iter, body, [], None)]
+        stmts: list[ast.stmt] = [ast.Assign([ast.Name(name, ast.Store())], ast.List([], ast.Load()))] + body
+        for n in stmts:
+            ast.copy_location(n, e)
+            for sub in ast.walk(n):
+                if not hasattr(sub, "lineno"):
+                    ast.copy_location(sub, e)
+            ast.fix_missing_locations(n)
+        out = []
+        for s2, o in self.exec_block(stmts, st):
+            if o is NORMAL:
+                out.append((s2, ast.Name(name, ast.Load()), None))
+            elif o[0] == "raise":
+                out.append((s2, e, o[1]))
+            else:
+                raise AnalysisError(f"comprehension at line {getattr(e, 'lineno', '?')} leaves by {o[0]}")
+        return out
 
     def e_IfExp(self, e: ast.IfExp, st: St):
         out = []
@@ -1307,9 +1486,52 @@ class Enumerator:
             out.append((st2, t, None))
         return out
 
+    def _e_any_all(self, e: ast.Call, st: St):
+        """any(E for x in it) / all(..) over a comprehension whose element calls something this analysis follows has effects and, for a
+        generator expression, stops early: it is run as the loop it abbreviates,
+
+            _anyN = False                          _anyN = False
+            for x in it:                           for x in it:
+                if E: _anyN = True; break              if E: _anyN = True          (list comprehension: every element is evaluated)
+
+        and evaluates to the flag."""
+        comp = e.args[0]
+        is_any = e.func.id == "any"
+        name = f"_{e.func.id}{getattr(e, 'lineno', 0)}_{getattr(e, 'col_offset', 0)}"
+        hit: list[ast.stmt] = [ast.Assign([ast.Name(name, ast.Store())], ast.Constant(is_any))]
+        if isinstance(comp, ast.GeneratorExp):
+            hit.append(ast.Break())
+        test = comp.elt if is_any else ast.UnaryOp(ast.Not(), comp.elt)
+        body: list[ast.stmt] = [ast.If(test, hit, [])]
+        for g in reversed(comp.generators):
+            for c in reversed(g.ifs):
+                body = [ast.If(c, body, [])]
+            body = [ast.For(g.target, g.iter, body, [], None)]
+        stmts: list[ast.stmt] = [ast.Assign([ast.Name(name, ast.Store())], ast.Constant(not is_any))] + body
+        for n in stmts:
+            ast.copy_location(n, e)
+            for sub in ast.walk(n):
+                if not hasattr(sub, "lineno"):
+                    ast.copy_location(sub, e)
+            ast.fix_missing_locations(n)
+        out = []
+        for s2, o in self.exec_block(stmts, st):
+            if o is NORMAL:
+                out.append((s2, s2.env.get(name, ast.Name(name, ast.Load())), None))
+            elif o[0] == "raise":
+                out.append((s2, e, o[1]))
+            else:
+                raise AnalysisError(f"any()/all() at line {getattr(e, 'lineno', '?')} leaves by {o[0]}")
+        return out
+
     def e_Call(self, e: ast.Call, st: St):
         out = []
         f = e.func
+        if isinstance(f, ast.Name) and f.id in ("any", "all") and f.id not in st.env and len(e.args) == 1 and not e.keywords and isinstance(e.args[0], (ast.GeneratorExp, ast.ListComp)) and st.depth < self.cfg.max_inline_depth and not any(g.is_async for g in e.args[0].generators):
+            comp = e.args[0]
+            inner = [n for part in [comp.elt] + [c for g in comp.generators for c in g.ifs] for n in ast.walk(part) if isinstance(n, ast.Call)]
+            if any(self._would_inline(c, st) for c in inner):
+                return self._e_any_all(e, st)
         # receiver first, then arguments
         if isinstance(f, ast.Attribute):
             heads = [(s2, ast.Attribute(r, f.attr, ast.Load()), x) for s2, r, x in self.ev(f.value, st)]
@@ -1331,6 +1553,10 @@ class Enumerator:
                     else:
                         args.append(ast.Starred(t, ast.Load()) if isinstance(a, ast.Starred) else t)
                 kws = [ast.keyword(k.arg, t) for k, t in zip(e.keywords, terms[len(e.args) :])]
+                # tuple(<display>) / list(<display>) is the display (as a tuple / a fresh list)
+                if isinstance(fterm, ast.Name) and fterm.id in ("tuple", "list") and fterm.id not in st2.env and len(args) == 1 and not kws and isinstance(args[0], (ast.Tuple, ast.List)) and not any(isinstance(x, ast.Starred) for x in args[0].elts):
+                    out.append((st2, (ast.Tuple if fterm.id == "tuple" else ast.List)(list(args[0].elts), ast.Load()), None))
+                    continue
                 call = ast.Call(fterm, args, kws)
                 ast.copy_location(call, e)
                 out.extend(self._do_call(e, call, st2))
@@ -1386,6 +1612,25 @@ class Enumerator:
         text = render(call)
         st.last_func = ftext
         self.emit(st, "call", text, orig, func=ftext, args=[render(a) for a in call.args], kwargs={k.arg: render(k.value) for k in call.keywords if k.arg}, term=call)
+        # locals known as list displays: in-place changes are applied to the display (append / extend by a display) or end the knowledge
+        if isinstance(call.func, ast.Attribute) and isinstance(call.func.value, ast.Name) and isinstance(st.env.get(call.func.value.id), ast.List) and call.func.attr in LIST_MUTATORS:
+            n_, cur = call.func.value.id, st.env[call.func.value.id]
+            # (the contents are followed for lists the engine itself builds out of comprehensions; a list the code fills by hand stays
+            # the loop-carried collection the rules know it as)
+            if not n_.startswith("_lc"):
+                st.env[n_] = ast.Name(n_, ast.Load())
+            elif call.func.attr == "append" and len(call.args) == 1 and not call.keywords and not isinstance(call.args[0], ast.Starred):
+                st.env[n_] = ast.List(list(cur.elts) + [call.args[0]], ast.Load())
+            elif call.func.attr == "extend" and len(call.args) == 1 and isinstance(call.args[0], (ast.List, ast.Tuple)) and not any(isinstance(x, ast.Starred) for x in call.args[0].elts):
+                st.env[n_] = ast.List(list(cur.elts) + list(call.args[0].elts), ast.Load())
+            else:
+                st.env[n_] = ast.Name(n_, ast.Load())
+        elif not (isinstance(call.func, ast.Name) and call.func.id in PURE_CONSUMERS):
+            # ... and a display handed to code that is not followed may be changed there
+            for a in list(call.args) + [k.value for k in call.keywords]:
+                a = a.value if isinstance(a, ast.Starred) else a
+                if isinstance(a, ast.Name) and isinstance(st.env.get(a.id), ast.List):
+                    st.env[a.id] = ast.Name(a.id, ast.Load())
         out = []
         for kind in self.cfg.raises("call", text, orig, st):
             s3 = st.fork()
@@ -1435,9 +1680,14 @@ class Enumerator:
         if len(args) == 1 and isinstance(args[0], ast.Starred) and not call.keywords and fd.args.vararg is None and params and not any(p_ in dmap for p_ in params):
             # f(*seq) with exactly the positional parameters to fill: parameter i is seq[i]
             args = [ast.Subscript(args[0].value, ast.Constant(i), ast.Load()) for i in range(len(params))]
+        shared_lists: list[tuple[str, str]] = []
         for p, a in zip(params, args):
             if not isinstance(a, ast.Starred):
-                bound[p] = a
+                if isinstance(a, ast.Name) and isinstance(saved_env.get(a.id), (ast.List, ast.Tuple)) and not is_closure:
+                    bound[p] = saved_env[a.id]  # the callee sees the list's contents; what it changes in place is noted below
+                    shared_lists.append((p, a.id))
+                else:
+                    bound[p] = a
         if fd.args.vararg is not None and not any(isinstance(a, ast.Starred) for a in args):
             bound[fd.args.vararg.arg] = ast.Tuple(list(args[len(params) :]), ast.Load())
         for k in call.keywords:
@@ -1466,7 +1716,7 @@ class Enumerator:
                             continue
                         rt_ = render(t)
                         if any(tg in rt_ for tg in stored):
-                            self._freeze(s2, new_env, k, t)
+                            self._freeze(s2, new_env, k, t, stored)
             if self.cfg.freeze_locals and not is_closure:
                 # a local handed to the callee and frozen there (the callee took a lock) is the same snapshot in the caller
                 linked = set()
@@ -1483,6 +1733,9 @@ class Enumerator:
                             continue
                         if self._is_shared_snapshot(t, s2):
                             self._freeze(s2, new_env, k, t)
+            for p_, n_ in shared_lists:
+                if isinstance(new_env.get(n_), ast.List) and (callee_env.get(p_) is not bound.get(p_) or any(_mutated_names([x]) & {p_} for x in fd.body)):
+                    new_env[n_] = ast.Name(n_, ast.Load())  # changed (or possibly changed) in place by the callee
             if is_closure:
                 for k, v in callee_env.items():
                     if k.startswith("self."):
@@ -1498,6 +1751,9 @@ class Enumerator:
             self.emit(s2, "inline_end", fi.qualname, orig)
             if o[0] == "return":
                 rt = o[1]
+                # a list the callee built by a comprehension and returns is the caller's from here on (its contents stay known)
+                if isinstance(rt, ast.Name) and rt.id.startswith("_lc") and isinstance(callee_env.get(rt.id), (ast.List, ast.Tuple)):
+                    s2.env[rt.id] = callee_env[rt.id]
                 if selfterm is not None and isinstance(rt, ast.AST):
                     rt = rewrite(rt, lambda n: selfterm if isinstance(n, ast.Name) and n.id == "self" else None)
                     if self.P.value_classes:
@@ -1589,6 +1845,9 @@ class Enumerator:
         # a tuple / list / dict / set display is never None
         if isinstance(t, ast.Compare) and len(t.ops) == 1 and isinstance(t.ops[0], ast.Is) and isinstance(t.comparators[0], ast.Constant) and t.comparators[0].value is None and isinstance(t.left, (ast.Tuple, ast.List, ast.Dict, ast.Set, ast.ListComp, ast.JoinedStr)):
             return [(st, False != neg)]
+        # ... and so is the result of calling a class of the program (a constructor call)
+        if isinstance(t, ast.Compare) and len(t.ops) == 1 and isinstance(t.ops[0], ast.Is) and isinstance(t.comparators[0], ast.Constant) and t.comparators[0].value is None and isinstance(t.left, ast.Call) and isinstance(t.left.func, ast.Name) and t.left.func.id in self.P.classes and "__new__" not in self.P.classes[t.left.func.id].methods:
+            return [(st, False != neg)]
         if isinstance(t, ast.UnaryOp) and isinstance(t.op, ast.Not):
             return [(s, (not v)) for s, v in self._atom(t.operand, st, node)] if not neg else self._atom(t.operand, st, node)
         if isinstance(t, ast.BoolOp) and not neg:
@@ -1662,7 +1921,19 @@ def snap_canon(text: str, snaps: dict[str, str]) -> str:
 
     def sub(m):
         of = snaps.get(m.group(1) + "'")
-        return m.group(0) if of is None else f"snap<{of}{m.group(2)}>"
+        if of is None:
+            return m.group(0)
+        idx = _re.findall(r"\[(-?\d+)\]", m.group(2))
+        if idx and of[:1] in "[(":
+            try:
+                cur = ast.parse(of, mode="eval").body
+                rest = list(idx)
+                while rest and isinstance(cur, (ast.List, ast.Tuple)) and -len(cur.elts) <= int(rest[0]) < len(cur.elts):
+                    cur = cur.elts[int(rest.pop(0))]
+                return f"snap<{ast.unparse(cur)}{''.join(f'[{i}]' for i in rest)}>"
+            except SyntaxError:
+                pass
+        return f"snap<{of}{m.group(2)}>"
 
     return _re.sub(r"(\w+)'((?:\[-?\d+\])*)", sub, text)
 
